@@ -8,6 +8,10 @@ Functions under contract (real source, re-read on every run):
   construction sites (ppt `_build_slides_from_text_blocks`, `_parse_ppt_document`,
   rtf `flush_page`) by symbolic execution, the remaining construction sites and the
   heading-section iterators (doc/docx/odt) by AST dataflow obligations (EXTRA).
+  Round 7, verified on their real bodies (were opaque / assumed / without contract): `PptSlideContent.text_combined`,
+  `OdpSlide.text_combined`, `PptxSlide.get_text` (the unit text of ppt / odp / pptx slides, composed of title / body / other texts,
+  formulas, image captions), xlsx `_is_cell_non_empty` (the predicate of the row / column trimming contracts),
+  pptx `_PptxContext._load_xml_files` and the property `_PptxContext.slide_order` (the slide order read_pptx walks is the computed one).
 
 The yielded units are observed exactly as the property says:
 `u.get_metadata().unit_number` and `u.get_text()` (the real accessor methods are
@@ -479,8 +483,17 @@ def seq_of_block_seqs(name):
 
 def lens_of(st, v):
     """(length, Array k |-> len(v[k])) of a sequence of sequences."""
+    from pyvc.ops import Unsupported
     if isinstance(v, VRef):
-        v = st.obj(v.ref).data
+        o = st.obj(v.ref)
+        if o.kind == "list":
+            # a list DISPLAY of block sequences passed by a caller: the contract is stated for a sequence of symbolic length; writing the
+            # lengths out makes the refutation of the caller's clause a RecFunction + quantifier query in the sat direction (measured:
+            # 120 s of timeouts), so this is OUT-OF-SUBSET and the native replayer decides
+            raise Unsupported("the list of block sequences is a list display here: outside the form the contract is stated for")
+        v = o.data
+    if not isinstance(v, VSeq):
+        raise Unsupported("the list of block sequences is not a sequence the executor follows in this state")
     if isinstance(v.tag, tuple) and v.tag and v.tag[0] == "lens":
         return v.length, v.tag[1]
     return v.length, z3.Lambda([K], v.elem(K).length)
@@ -935,7 +948,7 @@ def parse_spine_contract():
 
 # ----------------------------------------------- construction site: xlsx row trimming --
 XLSX = "sharepoint2text/parsing/extractors/ms_modern/xlsx_extractor.py"
-CELL_NE = fun("xlsx_cell_non_empty", ext_sort("XCell"), B)      # _is_cell_non_empty(value) (assumed pure; its definition is C02's)
+CELL_NE = fun("xlsx_cell_non_empty", ext_sort("XCell"), B)      # _is_cell_non_empty(cell) for a cell of unknown dynamic type (round 7: the function is verified per dynamic type, see cell_non_empty_contract)
 
 
 def any_true(seq: VSeq):
@@ -1118,9 +1131,325 @@ def last_data_column_contract():
     return c_
 
 
-def cell_non_empty_assumed():
-    return FnContract(target=f"{XLSX}::_is_cell_non_empty", params=[("val", p_ext("XCell"))],
-                      returns=lambda c: VBool(CELL_NE(c.args["val"].t)), assumed=True)
+def p_cell_value():
+    """A spreadsheet cell value by dynamic type: None, a string, or a value that is neither (int / bool stand for every other type:
+    the body may only ask `is None` / `isinstance(.., str)` of such a value, anything else is outside the executor's subset)."""
+    def mk(ex, st, name):
+        return [(None, NONE), (None, VStr(z3.String(name))), (None, VInt(z3.Int(name + "!int"))), (None, VBool(z3.Bool(name + "!bool")))]
+    return Maker(mk, desc="cell value: None | str | other (int, bool)")
+
+
+def cell_non_empty_spec(v):
+    """"The cell carries data": it is not None and, when it is a string, it is not blank.  For an abstract cell (dynamic type not known,
+    the rows of the trimming functions) this is the uninterpreted predicate CELL_NE of the cell: the call-site view, implied by the
+    verified cases because they give the result as a function of the value alone."""
+    if isinstance(v, VExt):
+        return CELL_NE(v.t)
+    if v is NONE or type(v).__name__ == "VNoneT":
+        return z3.BoolVal(False)
+    if isinstance(v, VStr):
+        return STRIP(v.t) != z3.StringVal("")
+    if isinstance(v, (VInt, VBool)):
+        return z3.BoolVal(True)
+    from pyvc.ops import Unsupported
+    raise Unsupported(f"cell value of a kind the contract does not describe: {v!r}")
+
+
+def cell_non_empty_contract():
+    """round 7: `_is_cell_non_empty` is VERIFIED on its real body (was an assumed contract); the row / column trimming functions call it
+    through this same contract."""
+    return FnContract(target=f"{XLSX}::_is_cell_non_empty", params=[("val", p_cell_value())],
+                      returns=lambda c: VBool(cell_non_empty_spec(c.args["val"])), raises=[],
+                      note="non-empty == not None and (not a string or strip() != '')")
+
+
+# ------------------------------------------- slide text accessors (round 7: verified) --
+def slide_parts(cls, e, opt_title):
+    """(length, Array k |-> part k) of the parts `text_combined` joins, written from the class documentation ("all text from this
+    slide combined"): the title when there is a non-empty one, then every body text, then every other text, in stored order."""
+    title = _f(cls, "title")(e)
+    has = z3.Length(title) > 0
+    if opt_title:
+        has = z3.And(z3.Not(fld(cls, "title.is_none", B)(e)), has)
+    nb, no = fld_len(cls, "body_text")(e), fld_len(cls, "other_text")(e)
+    body, other = fld_at(cls, "body_text", S), fld_at(cls, "other_text", S)
+    off = z3.If(has, 1, 0)
+    j = K - off
+    rest = z3.If(j < nb, body(e, j), other(e, j - nb))
+    return off + nb + no, z3.Lambda([K], z3.If(z3.And(has, K == 0), title, rest)), has
+
+
+def text_combined_contract(cls, opt_title):
+    """`<slide>.text_combined` (property): VERIFIED on the real body.  The unit text of a ppt / odp slide is this value (SPEC above keeps
+    the abstract name `<cls>.text_combined()(instance)` at call sites: the verified clause gives it as a function of the instance's
+    fields only, which is what the call-site view says)."""
+    def parts_of(c):
+        return slide_parts(cls, c.args["self"].t, opt_title)
+
+    def returns(c):
+        n, lam, _ = parts_of(c)
+        return VStr(JOIN(NL, lam, n))
+
+    def e_each(c):
+        # element-wise reading of the same claim, independent of how z3 compares the two lambdas: the joined sequence has the
+        # length of the spec and the same element at every position
+        n, lam, _ = parts_of(c)
+        r = c.result.t if isinstance(c.result, VStr) else None
+        if r is None or not (z3.is_app(r) and r.decl().name() == "str_join" and r.num_args() == 3):
+            from pyvc.ops import Unsupported
+            raise Unsupported("text_combined does not return a join over a sequence the executor follows")
+        k = z3.Int("k!tc")
+        return z3.And(r.arg(0) == NL, r.arg(2) == n,
+                      z3.ForAll([k], z3.Implies(z3.And(k >= 0, k < n), z3.Select(r.arg(1), k) == z3.Select(lam, k))))
+
+    return FnContract(
+        target=f"{DT}::{cls}.text_combined",
+        params=[("self", p_ext(cls))],
+        ensures=[("parts-are-title-then-body-texts-then-other-texts-joined-by-newline", e_each)],
+        raises=[],
+        note="text_combined == '\\n'.join([title if non-empty] + body_text + other_text) over lists of symbolic length",
+    )
+
+
+
+# ----------------------------------------------- PptxSlide.get_text (round 7: verified) --
+def pptx_text_spec(me):
+    """Pieces of the documented slide text ("slide text with formulas included and optional image captions"): the base text when
+    it is non-empty, one piece per formula in stored order ($$..$$ for display formulas, $..$ inline), and -- only when captions are
+    asked for -- one piece `[Image: <description>]` per image WITH a description, in stored order."""
+    base = _f("PptxSlide", "base_text")(me)
+    off = z3.If(z3.Length(base) > 0, 1, 0)
+    nf, ni = fld_len("PptxSlide", "formulas")(me), fld_len("PptxSlide", "images")(me)
+    f_at = lambda k: fld_at("PptxSlide", "formulas", ext_sort("PptxFormula"))(me, k)
+    i_at = lambda k: fld_at("PptxSlide", "images", ext_sort("PptxImage"))(me, k)
+    latex, disp = _f("PptxFormula", "latex"), fld("PptxFormula", "is_display", B)
+    desc = _f("PptxImage", "description")
+    d1, d2 = z3.StringVal("$"), z3.StringVal("$$")
+    fm = lambda k: z3.If(disp(f_at(k)), z3.Concat(d2, latex(f_at(k)), d2), z3.Concat(d1, latex(f_at(k)), d1))
+    cap = lambda j: z3.Concat(z3.StringVal("[Image: "), desc(i_at(j)), z3.StringVal("]"))
+    keep = z3.Lambda([K], z3.Length(desc(i_at(K))) > 0)
+    cnt = lambda j: X.COUNT_TRUE(keep, j)
+    cdef = lambda j: X.count_true_def(keep, j)
+    return dict(base=base, off=off, nf=nf, ni=ni, fm=fm, cap=cap, kept=lambda j: z3.Length(desc(i_at(j))) > 0, cnt=cnt, cdef=cdef)
+
+
+def _joined_local(fnode):
+    """name of the local list whose join is returned (`return sep.join(<name>)`), however it is called"""
+    for n in ast.walk(fnode):
+        if isinstance(n, ast.Return) and isinstance(n.value, ast.Call) and isinstance(n.value.func, ast.Attribute) and n.value.func.attr == "join" \
+                and len(n.value.args) == 1 and isinstance(n.value.args[0], ast.Name):
+            return n.value.args[0].id
+    return None
+
+
+def pptx_get_text_contract():
+    from contracts.c16_exec import ConjA
+    from pyvc.ops import Unsupported
+
+    def clauses(sp, P_len, P_at, upto_f, upto_i, captions):
+        """the part list read as (length, element function), formulas handled so far, images handled so far (None: image pieces are
+        not part of the list)"""
+        k, j = z3.Int("k!gt"), z3.Int("j!gt")
+        n_img = sp["cnt"](upto_i) if upto_i is not None else z3.IntVal(0)
+        out = [("count", z3.And(P_len == sp["off"] + upto_f + z3.If(captions, n_img, 0), z3.Implies(captions, n_img >= 0))),
+               ("base-text-first", z3.Implies(sp["off"] == 1, P_at(z3.IntVal(0)) == sp["base"])),
+               ("formula-k-at-its-position", z3.ForAll([k], z3.Implies(z3.And(k >= 0, k < upto_f), P_at(sp["off"] + k) == sp["fm"](k))))]
+        if upto_i is not None:
+            out.append(("caption-of-every-described-image-in-order",
+                        z3.Implies(captions, z3.ForAll([j], z3.Implies(z3.And(j >= 0, j < upto_i, sp["kept"](j)),
+                                                                         z3.And(sp["cnt"](j) >= 0, sp["cnt"](j) < n_img,
+                                                                                P_at(sp["off"] + sp["nf"] + sp["cnt"](j)) == sp["cap"](j))),
+                                                        patterns=[sp["cnt"](j)]))))
+        return out
+
+    def parts_view(lc_or_c, st, fnode):
+        name = _joined_local(fnode)
+        v = st.lookup(name) if name else None
+        if not isinstance(v, VRef) or st.obj(v.ref).kind not in ("alist", "list"):
+            raise Unsupported("the list of text pieces that is joined was not found in this state")
+        sq = lc_or_c.ex._as_seq(st, v)
+        if sq is not None and z3.is_int_value(z3.simplify(sq.length)) and z3.simplify(sq.length).as_long() == 0:
+            return z3.IntVal(0), (lambda k: z3.StringVal(""))          # the empty list: no element is ever read
+        if sq is None or not isinstance(sq.elem(K), VStr):
+            raise Unsupported("the list of text pieces does not hold strings only here")
+        return sq.length, (lambda k: sq.elem(k).t)
+
+    def inv_formulas(lc):
+        me = lc.entry.frames[0].env["self"].t
+        sp = pptx_text_spec(me)
+        n, at = parts_view(lc, lc.st, lc.ex.cur_fn_stack[-1])
+        return Conj(clauses(sp, n, at, lc.i, None, z3.BoolVal(False)))
+
+    def inv_images(lc):
+        me = lc.entry.frames[0].env["self"].t
+        sp = pptx_text_spec(me)
+        n, at = parts_view(lc, lc.st, lc.ex.cur_fn_stack[-1])
+        return ConjA(clauses(sp, n, at, sp["nf"], lc.i, z3.BoolVal(True)), defs=[sp["cdef"](z3.IntVal(0)), sp["cdef"](lc.i), sp["cdef"](lc.i + 1)])
+
+    def hyps(c):
+        sp = pptx_text_spec(c.args["self"].t)
+        return z3.And(sp["cdef"](z3.IntVal(0)), sp["nf"] >= 0, sp["ni"] >= 0)
+
+    def ens(which):
+        def f(c):
+            if c.ex.contract is not c_:
+                # call sites (PptxContent.iterate_units): the result is the abstract name `PptxSlide.get_text()(slide, flag)` of SPEC --
+                # the call-site view "a function of the slide and the flag alone", which the verified clauses imply
+                return z3.BoolVal(True)
+            sp = pptx_text_spec(c.args["self"].t)
+            r = c.result.t if isinstance(c.result, VStr) else None
+            if r is None or not (z3.is_app(r) and r.decl().name() == "str_join" and r.num_args() == 3):
+                raise Unsupported("get_text does not return a join over a sequence the executor follows")
+            captions = c.ex.truth(c.st, c.args["include_image_captions"]).t
+            cl = dict(clauses(sp, r.arg(2), lambda k: z3.Select(r.arg(1), k), sp["nf"], sp["ni"], captions))
+            if which == "separator":
+                return r.arg(0) == NL
+            return cl[which]
+        return f
+
+    sp_f, sp_i = LoopSpec(inv=inv_formulas, label="formulas"), LoopSpec(inv=inv_images, label="images")
+
+    def finder(ex, fnode, node):
+        if not isinstance(node, ast.For):
+            return None
+        if iterates(fnode, node.iter, ("self", "formulas")):
+            return sp_f
+        if iterates(fnode, node.iter, ("self", "images")):
+            return sp_i
+        return None
+
+    def result_maker(ex, st, ctx):
+        return VStr(opaque("PptxSlide", "get_text", B)(ctx.args["self"].t, ex.truth(st, ctx.args["include_image_captions"]).t))
+
+    p_flag = p_bool()
+    p_flag.default = lambda ex, st: VBool(z3.BoolVal(False))
+    c_ = FnContract(
+        target=f"{DT}::PptxSlide.get_text",
+        params=[("self", p_ext("PptxSlide")), ("include_image_captions", p_flag)],
+        hyps=hyps,
+        result_maker=result_maker,
+        ensures=[("pieces-joined-by-newline", ens("separator")), ("one-piece-per-formula-and-per-described-image", ens("count")),
+                 ("base-text-first", ens("base-text-first")), ("formula-k-at-its-position", ens("formula-k-at-its-position")),
+                 ("caption-of-every-described-image-in-order", ens("caption-of-every-described-image-in-order"))],
+        raises=[],
+        loops={},
+        note="get_text == '\\n'.join([base_text if non-empty] + [$latex$ | $$latex$$ per formula] + ([Image: d] per image with a description, "
+             "if asked for)); lists of symbolic length, filter counted by COUNT_TRUE",
+    )
+    c_.loop_finder = finder
+    return c_
+
+
+# ------------------------------------ pptx: the slide order the reader walks (round 7) --
+PPTX = "sharepoint2text/parsing/extractors/ms_modern/pptx_extractor.py"
+_ORDER_KEY = "c03.slide-order-computed"
+
+
+def pptx_order_views():
+    """Call-site views used while `_load_xml_files` / `slide_order` are verified: `_compute_slide_order()` returns SOME finite list of
+    strings (its return annotation; that its content is the sldIdLst document order is the construction obligation of c03_flow) and every
+    list it returned in this execution is remembered (ghost); `read_xml_root` (zipfile + XML parser behind ZipContext) returns some
+    element or raises.  Nothing else is assumed about either."""
+    from pyvc.verify import p_unk
+
+    def r_order(ex, st, ctx):
+        sq = X.fresh_seq_like("str", "slide_order")
+        st.assume(sq.length >= 0)
+        st.ghost[_ORDER_KEY] = tuple(st.ghost.get(_ORDER_KEY, ())) + (sq,)
+        return ex.new_alist(st, sq)
+
+    def r_root(ex, st, ctx):
+        return VExt("Elem", z3.Const(fresh_name("xml_root"), ext_sort("Elem")))
+
+    return [FnContract(target=f"{PPTX}::_PptxContext._compute_slide_order", params=[("self", p_unk())], result_maker=r_order, assumed=True,
+                       note="call-site view: returns a finite list of str (annotation)"),
+            FnContract(target=f"{PPTX}::_PptxContext.read_xml_root", params=[("self", p_unk()), ("path", p_unk())], result_maker=r_root,
+                       assumed=True, may_raise_any=True, note="ZipContext.read_xml_root: zipfile + XML parser (third party)")]
+
+
+def _same_seq(a: VSeq, b: VSeq, name="k!so"):
+    k = z3.Int(name)
+    ea, eb = a.elem(k), b.elem(k)
+    if not isinstance(ea, VStr) or not isinstance(eb, VStr):
+        from pyvc.ops import Unsupported
+        raise Unsupported("the slide order is not a list of strings in this state")
+    return z3.And(a.length == b.length, z3.ForAll([k], z3.Implies(z3.And(k >= 0, k < a.length), ea.t == eb.t)))
+
+
+def _order_field(ex, st, me):
+    from pyvc.ops import Unsupported
+    v = st.obj(me.ref).data.get("_slide_order") if st.obj(me.ref).kind == "obj" else None
+    if v is None:
+        raise Unsupported("the context object / its _slide_order field is not tracked in this state")
+    if v is NONE:
+        return None
+    sq = ex._as_seq(st, v)
+    if sq is None:
+        raise Unsupported(f"_slide_order holds {v!r}: not a list the executor follows")
+    return sq
+
+
+def p_pptx_context(order):
+    from pyvc.verify import p_const, p_opt
+    def empty_dict():
+        return Maker(lambda ex, st, name: VRef(st.alloc(HeapObj("dict", {}, None, False), ex.refs)), desc="{}")
+    none = Maker(lambda ex, st, name: NONE, desc="None")
+    return p_obj("_PptxContext", {"_namelist": p_alist("str"), "_core_root": none, "_presentation_root": none, "_presentation_rels_root": none,
+                                  "_slide_roots": empty_dict(), "_slide_rels_roots": empty_dict(), "_comment_roots": empty_dict(),
+                                  "_slide_order": order, "_slide_relationships": empty_dict()})
+
+
+def load_xml_files_contract():
+    """_PptxContext._load_xml_files (runs once, from __init__): afterwards the cached slide order IS the list `_compute_slide_order()`
+    returned -- same length, same entries, same order; nothing is taken out of it or added to it on the way (a slide left out here is a
+    slide without a unit and shifts every later slide number)."""
+    from pyvc.ops import Unsupported
+
+    def ens(c):
+        got = c.st.ghost.get(_ORDER_KEY, ())
+        if len(got) != 1:
+            raise Unsupported(f"_compute_slide_order() is called {len(got)} times on this path: the clause is stated for one call")
+        cur = _order_field(c.ex, c.st, c.args["self"])
+        if cur is None:
+            return z3.BoolVal(False)
+        return _same_seq(cur, got[0])
+
+    none = Maker(lambda ex, st, name: NONE, desc="None")
+    return FnContract(
+        target=f"{PPTX}::_PptxContext._load_xml_files",
+        params=[("self", p_pptx_context(none))],
+        ensures=[("cached-slide-order-is-the-computed-order-unchanged", ens)],
+        raises=[Raises("Exception", sub=True, label="archive / XML failures (failure surface is C01's)")],
+        modifies=("self",),
+        note="self._slide_order == the list returned by self._compute_slide_order(), entry by entry",
+    )
+
+
+def slide_order_property_contract():
+    """_PptxContext.slide_order (property read by read_pptx): the cached order when there is one, else the freshly computed one."""
+    from pyvc.ops import Unsupported
+    from pyvc.verify import p_opt
+
+    def ens(c):
+        got = c.st.ghost.get(_ORDER_KEY, ())
+        r = c.ex._as_seq(c.st, c.result) if not isinstance(c.result, VUnk) else None
+        if r is None:
+            raise Unsupported(f"slide_order returns {c.result!r}: not a list the executor follows")
+        old = _order_field(c.ex, c.entry, c.args["self"])
+        if old is not None:
+            return z3.And(z3.BoolVal(len(got) == 0), _same_seq(r, old))
+        if len(got) != 1:
+            raise Unsupported(f"_compute_slide_order() is called {len(got)} times on this path: the clause is stated for one call")
+        return _same_seq(r, got[0])
+
+    return FnContract(
+        target=f"{PPTX}::_PptxContext.slide_order",
+        params=[("self", p_pptx_context(p_opt(p_alist("str"))))],
+        ensures=[("the-cached-order-else-the-computed-order-unchanged", ens)],
+        raises=[],
+        modifies=("self",),
+        note="slide_order == self._slide_order if cached else self._compute_slide_order()",
+    )
 
 
 # ------------------------------------------------------------ opaque members --
@@ -1154,6 +1483,106 @@ class C03Executor(ET.ETreeMixin, X.UnitsExecutor):
     """+ loops under an invariant are found by what they iterate (contract attribute `loop_finder`);
     + paths that went through an over-approximation (EXC-ANY call, loop cut without invariant) carry the marker OVER: a
       solver model on such a path is not a counter-example (the VC becomes `unknown`, the native replayer decides)."""
+
+    # round 7: list concatenation / `+=` / insert(0, x) where one side has symbolic length (other ways of writing the part lists of
+    # the slide text accessors)
+    def _as_seq(self, st, v):
+        if isinstance(v, VSeq):
+            return v
+        if isinstance(v, VRef):
+            o = st.obj(v.ref)
+            if o.kind == "alist":
+                return o.data
+            if o.kind == "list":
+                items = list(o.data)
+                kinds = {repr(X.ekind_of_value(x)) for x in items}
+                ek = X.ekind_of_value(items[0]) if len(kinds) == 1 else "unk"
+                return VSeq(z3.IntVal(len(items)), lambda k, items=items: X._sel(items, k), ek)
+        return None
+
+    def havoc_loop_state(self, st, body, spec, extra_names=()):
+        # round 7: an EMPTY concrete list to which the loop body only appends string-typed expressions (f-strings, string constants)
+        # is havocked to a sequence of strings, not to a sequence of unknowns (the element kind of `[]` is not known otherwise)
+        by_ref = {}
+        for b in body:
+            for sub in ast.walk(b):
+                if isinstance(sub, ast.Call) and isinstance(sub.func, ast.Attribute) and sub.func.attr in X.MUTATORS:
+                    r = self._resolve(st, sub.func.value)
+                    if isinstance(r, VRef):
+                        ok = sub.func.attr == "append" and len(sub.args) == 1 and (
+                            isinstance(sub.args[0], ast.JoinedStr) or (isinstance(sub.args[0], ast.Constant) and isinstance(sub.args[0].value, str)))
+                        by_ref.setdefault(r.ref, []).append(ok)
+        for ref, oks in by_ref.items():
+            o = st.heap.get(ref)
+            if o is not None and o.kind == "list" and o.data == [] and all(oks):
+                st.heap[ref] = HeapObj("alist", VSeq(z3.IntVal(0), lambda k: VStr(z3.StringVal("")), "str"), None, o.fresh)
+        return super().havoc_loop_state(st, body, spec, extra_names)
+
+    def store_index(self, st, base, idx, v, node):
+        # round 7: a store under a SYMBOLIC string key (caches keyed by part name): the mapping is forgotten (an object of unknown
+        # content from here on), nothing else changes -- an over-approximation of the store
+        if isinstance(base, VRef) and isinstance(idx, VStr) and idx.const() is None and st.obj(base.ref).kind in ("dict", "amap", "unk"):
+            o = st.obj(base.ref)
+            self.note_store(st, base.ref, node)
+            st.heap[base.ref] = HeapObj("unk", None, o.cls, o.fresh)
+            return [st]
+        return super().store_index(st, base, idx, v, node)
+
+    def amap_method(self, st, obj, name, args, kwargs, node):
+        if name == "get" and args and isinstance(args[0], VStr):
+            return [(st, VUnk("map.get"))]          # lookup under a string key in a mapping whose content is not tracked: any value
+        return super().amap_method(st, obj, name, args, kwargs, node)
+
+    def havoc_like(self, st, v, name):
+        # round 7 (soundness): a name / attribute that held a LIST and is assigned in a cut loop may be bound to a different list
+        # afterwards (`self.order = []` in the body); the generic havoc kept the old reference, i.e. the old content.  It now gets a
+        # fresh list of the same element kind (lists that are only mutated in place are havocked separately, as before).
+        if isinstance(v, VRef):
+            o = st.heap.get(v.ref)
+            if o is not None and o.kind in ("list", "alist") and o.data is not None:
+                if o.kind == "alist":
+                    ek = o.data.ekind
+                else:
+                    kinds = {repr(X.ekind_of_value(x)) for x in o.data}
+                    ek = X.ekind_of_value(o.data[0]) if len(kinds) == 1 else "unk"
+                sq = X.fresh_seq_like(ek, f"rebound.{name}")
+                st.assume(sq.length >= 0)
+                return self.new_alist(st, sq)
+        return super().havoc_like(st, v, name)
+
+    def b_collection(self, st, name, args, node):
+        if name == "list" and len(args) == 1 and isinstance(args[0], VSeq) and args[0].ekind != "unk":
+            return [(st, self.new_alist(st, args[0]))]          # list(<symbolic sequence>): a fresh mutable copy (may be appended to / inserted into)
+        return super().b_collection(st, name, args, node)
+
+    def binop(self, st, op, a, b, node, inplace=False):
+        if op == "Add" and not isinstance(a, VUnk) and not isinstance(b, VUnk):
+            sa, sb = self._as_seq(st, a), self._as_seq(st, b)
+            symbolic = any(isinstance(x, VSeq) or (isinstance(x, VRef) and st.obj(x.ref).kind == "alist") for x in (a, b))
+            if sa is not None and sb is not None and symbolic:
+                if inplace and isinstance(a, VRef):
+                    o = st.obj(a.ref)
+                    for (s2, _v) in (self.alist_method if o.kind == "alist" else self.list_method)(st, a, "extend", [b], {}, node):
+                        return [(s2, None)]
+                r = self.new_alist(st, sa)
+                out = self.alist_method(st, r, "extend", [b if not isinstance(b, VRef) or st.obj(b.ref).kind != "list" else sb], {}, node)
+                return [(s2, r) for (s2, _v) in out]
+        return super().binop(st, op, a, b, node, inplace)
+
+    def alist_method(self, st, obj, name, args, kwargs, node):
+        if name == "insert" and len(args) == 2 and isinstance(args[0], VInt) and args[0].const() == 0:
+            o = st.obj(obj.ref)
+            sq = o.data
+            v = self.freeze(st, args[1])
+            n0, old = sq.length, sq.elem
+            if sq.ekind != "unk" and X.ekind_of_value(v) == sq.ekind:
+                new = VSeq(z3.simplify(n0 + 1), lambda k, old=old, v=v: X._ite_val(k == 0, v, old(k - 1)), sq.ekind)
+            else:
+                new = VSeq(z3.simplify(n0 + 1), lambda k: VUnk("elem"), "unk")
+            self.note_store(st, obj.ref, node)
+            st.heap[obj.ref] = HeapObj("alist", new, None, o.fresh)
+            return [(st, NONE)]
+        return super().alist_method(st, obj, name, args, kwargs, node)
 
     def loop_spec(self, node):
         c = self.contract
@@ -1486,6 +1915,13 @@ def contracts(reg):
     c16_exec.install(reg)          # finditer / Match model for the mailbox splitter (calls X.install as well)
     X.install(reg)
     install_opaque()
+
+    def join_or_unknown(ex, st, args, kwargs, node):
+        # round 7: a join over a value the executor does not follow (a slice of an unmodelled rsplit) is an unknown string
+        # (EXC-ANY call: tagged path), not the end of the function's verification
+        if len(args) > 1 and isinstance(args[1], VUnk):
+            return ex.havoc_call(st, "str.join", [], node)
+        return X.m_join(ex, st, args, kwargs, node)
     out = []
     for cls, p in SPEC.items():
         out.append(rtf_contract() if cls == "RtfContent" else paged_contract(p))
@@ -1503,7 +1939,13 @@ def contracts(reg):
     out.append(parse_spine_contract())
     out.append(last_data_row_contract())
     out.append(last_data_column_contract())
-    out.append(cell_non_empty_assumed())
+    out.append(cell_non_empty_contract())
+    out.append(text_combined_contract("PptSlideContent", True))
+    out.append(text_combined_contract("OdpSlide", False))
+    out.append(pptx_get_text_contract())
+    out.append(load_xml_files_contract())
+    out.append(slide_order_property_contract())
+    out.extend(pptx_order_views())
     # e-mail glue shared with C16 (message boundaries and the body text that becomes the unit are part of both properties): the
     # mailbox splitter and the .eml body assembly are verified here under C16's contracts (with C16's
     # executor, see EXECUTOR); C16's remaining contracts are only registered, so that calls inside these functions use them
@@ -1520,6 +1962,7 @@ def contracts(reg):
         elif reg.get(c16c.target) is None:
             reg.add(c16c)
     install_re(reg)
+    reg.ext_models["str.join"] = join_or_unknown       # (last: the shared installers above register the plain model again)
     from pyvc import solve as _solve
     if _untrusted not in _solve.SAT_UNTRUSTED:
         _solve.SAT_UNTRUSTED.append(_untrusted)
@@ -1624,7 +2067,13 @@ TRUSTED = ["observation of a unit = (get_metadata().unit_number, get_text()) com
 ASSUMED_MODELS = ["xml.etree Element.find/findall/get (contracts/etree_model.py: direct children with a tag, in document order)",
                   "re finditer / Match.start / Match.end (contracts/c16_exec.py: ordered, non-overlapping, non-empty matches inside the data)",
                   "str.strip (uninterpreted)", "str.join over a symbolic-length sequence (uninterpreted function of separator, element function, length)",
-                  "PptSlideContent.text_combined / OdpSlide.text_combined / PptxSlide.get_text / XlsSheet.get_table: pure functions of the instance"]
+                  "XlsSheet.get_table: pure function of the instance (purity obligation only; feeds the unit's tables, not its text or number)",
+                  "call-site names `PptSlideContent.text_combined()(slide)`, `OdpSlide.text_combined()(slide)`, `PptxSlide.get_text()(slide, flag)` in the "
+                  "iterate_units specs: functions of the instance (and flag) alone -- no longer an assumption about the code: implied by the "
+                  "VERIFIED contracts of these three functions (round 7), which give the value as a join over the instance's fields",
+                  "zipfile / XML parser behind ZipContext.read_xml_root (returns some element or raises), used by _PptxContext._load_xml_files",
+                  "call-site view of _PptxContext._compute_slide_order inside _load_xml_files / slide_order: returns a finite list of str (its "
+                  "annotation); that its content is the sldIdLst document order is the dataflow construction obligation, not assumed here"]
 NOT_CLAIMED = ["coverage of the body by the heading-section units: discharged only as the one-paragraph step contract of OdtContent.iterate_units "
                "(contracts/c03_sections.py::odt_step); for doc / docx (and the end-to-end effect for odt) there is only the BOUNDED native "
                "section scope, and docx documents with body text before the first heading or with a heading without text are recorded "
